@@ -185,6 +185,7 @@ Record bstate := mkB {
   b_seq : dict Z;
   b_seq_copy : dict Z;
   b_monitors : dict nat;
+  b_mon_susp : nat;
   b_sres_keys : list (uid * key);
   b_run_open : bool;
   b_uncollected : list obj;
@@ -205,73 +206,75 @@ Record bstate := mkB {
 }.
 
 Definition set_b_strict (x : bool) (s : bstate) : bstate :=
-  mkB x (b_record_int s) (b_bundling s) (b_bundle_name s) (b_run_uid s) (b_objs_read s) (b_read_cache s) (b_asset_cache s) (b_desc_cache s) (b_dcoll_cache s) (b_cfgdesc_cache s) (b_cfgval_cache s) (b_descriptors s) (b_descriptor_objs s) (b_seq s) (b_seq_copy s) (b_monitors s) (b_sres_keys s) (b_run_open s) (b_uncollected s) (b_declared s) (b_local s) (b_int s) (b_int_counter s) (b_composed s) (b_streams s) (b_poison s) (b_next_uid s) (b_next_cb s) (w_cfg s) (w_subs s) (w_closures s) (b_out s) (b_ledger s).
+  mkB x (b_record_int s) (b_bundling s) (b_bundle_name s) (b_run_uid s) (b_objs_read s) (b_read_cache s) (b_asset_cache s) (b_desc_cache s) (b_dcoll_cache s) (b_cfgdesc_cache s) (b_cfgval_cache s) (b_descriptors s) (b_descriptor_objs s) (b_seq s) (b_seq_copy s) (b_monitors s) (b_mon_susp s) (b_sres_keys s) (b_run_open s) (b_uncollected s) (b_declared s) (b_local s) (b_int s) (b_int_counter s) (b_composed s) (b_streams s) (b_poison s) (b_next_uid s) (b_next_cb s) (w_cfg s) (w_subs s) (w_closures s) (b_out s) (b_ledger s).
 Definition set_b_record_int (x : bool) (s : bstate) : bstate :=
-  mkB (b_strict s) x (b_bundling s) (b_bundle_name s) (b_run_uid s) (b_objs_read s) (b_read_cache s) (b_asset_cache s) (b_desc_cache s) (b_dcoll_cache s) (b_cfgdesc_cache s) (b_cfgval_cache s) (b_descriptors s) (b_descriptor_objs s) (b_seq s) (b_seq_copy s) (b_monitors s) (b_sres_keys s) (b_run_open s) (b_uncollected s) (b_declared s) (b_local s) (b_int s) (b_int_counter s) (b_composed s) (b_streams s) (b_poison s) (b_next_uid s) (b_next_cb s) (w_cfg s) (w_subs s) (w_closures s) (b_out s) (b_ledger s).
+  mkB (b_strict s) x (b_bundling s) (b_bundle_name s) (b_run_uid s) (b_objs_read s) (b_read_cache s) (b_asset_cache s) (b_desc_cache s) (b_dcoll_cache s) (b_cfgdesc_cache s) (b_cfgval_cache s) (b_descriptors s) (b_descriptor_objs s) (b_seq s) (b_seq_copy s) (b_monitors s) (b_mon_susp s) (b_sres_keys s) (b_run_open s) (b_uncollected s) (b_declared s) (b_local s) (b_int s) (b_int_counter s) (b_composed s) (b_streams s) (b_poison s) (b_next_uid s) (b_next_cb s) (w_cfg s) (w_subs s) (w_closures s) (b_out s) (b_ledger s).
 Definition set_b_bundling (x : bool) (s : bstate) : bstate :=
-  mkB (b_strict s) (b_record_int s) x (b_bundle_name s) (b_run_uid s) (b_objs_read s) (b_read_cache s) (b_asset_cache s) (b_desc_cache s) (b_dcoll_cache s) (b_cfgdesc_cache s) (b_cfgval_cache s) (b_descriptors s) (b_descriptor_objs s) (b_seq s) (b_seq_copy s) (b_monitors s) (b_sres_keys s) (b_run_open s) (b_uncollected s) (b_declared s) (b_local s) (b_int s) (b_int_counter s) (b_composed s) (b_streams s) (b_poison s) (b_next_uid s) (b_next_cb s) (w_cfg s) (w_subs s) (w_closures s) (b_out s) (b_ledger s).
+  mkB (b_strict s) (b_record_int s) x (b_bundle_name s) (b_run_uid s) (b_objs_read s) (b_read_cache s) (b_asset_cache s) (b_desc_cache s) (b_dcoll_cache s) (b_cfgdesc_cache s) (b_cfgval_cache s) (b_descriptors s) (b_descriptor_objs s) (b_seq s) (b_seq_copy s) (b_monitors s) (b_mon_susp s) (b_sres_keys s) (b_run_open s) (b_uncollected s) (b_declared s) (b_local s) (b_int s) (b_int_counter s) (b_composed s) (b_streams s) (b_poison s) (b_next_uid s) (b_next_cb s) (w_cfg s) (w_subs s) (w_closures s) (b_out s) (b_ledger s).
 Definition set_b_bundle_name (x : option name) (s : bstate) : bstate :=
-  mkB (b_strict s) (b_record_int s) (b_bundling s) x (b_run_uid s) (b_objs_read s) (b_read_cache s) (b_asset_cache s) (b_desc_cache s) (b_dcoll_cache s) (b_cfgdesc_cache s) (b_cfgval_cache s) (b_descriptors s) (b_descriptor_objs s) (b_seq s) (b_seq_copy s) (b_monitors s) (b_sres_keys s) (b_run_open s) (b_uncollected s) (b_declared s) (b_local s) (b_int s) (b_int_counter s) (b_composed s) (b_streams s) (b_poison s) (b_next_uid s) (b_next_cb s) (w_cfg s) (w_subs s) (w_closures s) (b_out s) (b_ledger s).
+  mkB (b_strict s) (b_record_int s) (b_bundling s) x (b_run_uid s) (b_objs_read s) (b_read_cache s) (b_asset_cache s) (b_desc_cache s) (b_dcoll_cache s) (b_cfgdesc_cache s) (b_cfgval_cache s) (b_descriptors s) (b_descriptor_objs s) (b_seq s) (b_seq_copy s) (b_monitors s) (b_mon_susp s) (b_sres_keys s) (b_run_open s) (b_uncollected s) (b_declared s) (b_local s) (b_int s) (b_int_counter s) (b_composed s) (b_streams s) (b_poison s) (b_next_uid s) (b_next_cb s) (w_cfg s) (w_subs s) (w_closures s) (b_out s) (b_ledger s).
 Definition set_b_run_uid (x : option uid) (s : bstate) : bstate :=
-  mkB (b_strict s) (b_record_int s) (b_bundling s) (b_bundle_name s) x (b_objs_read s) (b_read_cache s) (b_asset_cache s) (b_desc_cache s) (b_dcoll_cache s) (b_cfgdesc_cache s) (b_cfgval_cache s) (b_descriptors s) (b_descriptor_objs s) (b_seq s) (b_seq_copy s) (b_monitors s) (b_sres_keys s) (b_run_open s) (b_uncollected s) (b_declared s) (b_local s) (b_int s) (b_int_counter s) (b_composed s) (b_streams s) (b_poison s) (b_next_uid s) (b_next_cb s) (w_cfg s) (w_subs s) (w_closures s) (b_out s) (b_ledger s).
+  mkB (b_strict s) (b_record_int s) (b_bundling s) (b_bundle_name s) x (b_objs_read s) (b_read_cache s) (b_asset_cache s) (b_desc_cache s) (b_dcoll_cache s) (b_cfgdesc_cache s) (b_cfgval_cache s) (b_descriptors s) (b_descriptor_objs s) (b_seq s) (b_seq_copy s) (b_monitors s) (b_mon_susp s) (b_sres_keys s) (b_run_open s) (b_uncollected s) (b_declared s) (b_local s) (b_int s) (b_int_counter s) (b_composed s) (b_streams s) (b_poison s) (b_next_uid s) (b_next_cb s) (w_cfg s) (w_subs s) (w_closures s) (b_out s) (b_ledger s).
 Definition set_b_objs_read (x : list obj) (s : bstate) : bstate :=
-  mkB (b_strict s) (b_record_int s) (b_bundling s) (b_bundle_name s) (b_run_uid s) x (b_read_cache s) (b_asset_cache s) (b_desc_cache s) (b_dcoll_cache s) (b_cfgdesc_cache s) (b_cfgval_cache s) (b_descriptors s) (b_descriptor_objs s) (b_seq s) (b_seq_copy s) (b_monitors s) (b_sres_keys s) (b_run_open s) (b_uncollected s) (b_declared s) (b_local s) (b_int s) (b_int_counter s) (b_composed s) (b_streams s) (b_poison s) (b_next_uid s) (b_next_cb s) (w_cfg s) (w_subs s) (w_closures s) (b_out s) (b_ledger s).
+  mkB (b_strict s) (b_record_int s) (b_bundling s) (b_bundle_name s) (b_run_uid s) x (b_read_cache s) (b_asset_cache s) (b_desc_cache s) (b_dcoll_cache s) (b_cfgdesc_cache s) (b_cfgval_cache s) (b_descriptors s) (b_descriptor_objs s) (b_seq s) (b_seq_copy s) (b_monitors s) (b_mon_susp s) (b_sres_keys s) (b_run_open s) (b_uncollected s) (b_declared s) (b_local s) (b_int s) (b_int_counter s) (b_composed s) (b_streams s) (b_poison s) (b_next_uid s) (b_next_cb s) (w_cfg s) (w_subs s) (w_closures s) (b_out s) (b_ledger s).
 Definition set_b_read_cache (x : list reading) (s : bstate) : bstate :=
-  mkB (b_strict s) (b_record_int s) (b_bundling s) (b_bundle_name s) (b_run_uid s) (b_objs_read s) x (b_asset_cache s) (b_desc_cache s) (b_dcoll_cache s) (b_cfgdesc_cache s) (b_cfgval_cache s) (b_descriptors s) (b_descriptor_objs s) (b_seq s) (b_seq_copy s) (b_monitors s) (b_sres_keys s) (b_run_open s) (b_uncollected s) (b_declared s) (b_local s) (b_int s) (b_int_counter s) (b_composed s) (b_streams s) (b_poison s) (b_next_uid s) (b_next_cb s) (w_cfg s) (w_subs s) (w_closures s) (b_out s) (b_ledger s).
+  mkB (b_strict s) (b_record_int s) (b_bundling s) (b_bundle_name s) (b_run_uid s) (b_objs_read s) x (b_asset_cache s) (b_desc_cache s) (b_dcoll_cache s) (b_cfgdesc_cache s) (b_cfgval_cache s) (b_descriptors s) (b_descriptor_objs s) (b_seq s) (b_seq_copy s) (b_monitors s) (b_mon_susp s) (b_sres_keys s) (b_run_open s) (b_uncollected s) (b_declared s) (b_local s) (b_int s) (b_int_counter s) (b_composed s) (b_streams s) (b_poison s) (b_next_uid s) (b_next_cb s) (w_cfg s) (w_subs s) (w_closures s) (b_out s) (b_ledger s).
 Definition set_b_asset_cache (x : list asset) (s : bstate) : bstate :=
-  mkB (b_strict s) (b_record_int s) (b_bundling s) (b_bundle_name s) (b_run_uid s) (b_objs_read s) (b_read_cache s) x (b_desc_cache s) (b_dcoll_cache s) (b_cfgdesc_cache s) (b_cfgval_cache s) (b_descriptors s) (b_descriptor_objs s) (b_seq s) (b_seq_copy s) (b_monitors s) (b_sres_keys s) (b_run_open s) (b_uncollected s) (b_declared s) (b_local s) (b_int s) (b_int_counter s) (b_composed s) (b_streams s) (b_poison s) (b_next_uid s) (b_next_cb s) (w_cfg s) (w_subs s) (w_closures s) (b_out s) (b_ledger s).
+  mkB (b_strict s) (b_record_int s) (b_bundling s) (b_bundle_name s) (b_run_uid s) (b_objs_read s) (b_read_cache s) x (b_desc_cache s) (b_dcoll_cache s) (b_cfgdesc_cache s) (b_cfgval_cache s) (b_descriptors s) (b_descriptor_objs s) (b_seq s) (b_seq_copy s) (b_monitors s) (b_mon_susp s) (b_sres_keys s) (b_run_open s) (b_uncollected s) (b_declared s) (b_local s) (b_int s) (b_int_counter s) (b_composed s) (b_streams s) (b_poison s) (b_next_uid s) (b_next_cb s) (w_cfg s) (w_subs s) (w_closures s) (b_out s) (b_ledger s).
 Definition set_b_desc_cache (x : dict dks) (s : bstate) : bstate :=
-  mkB (b_strict s) (b_record_int s) (b_bundling s) (b_bundle_name s) (b_run_uid s) (b_objs_read s) (b_read_cache s) (b_asset_cache s) x (b_dcoll_cache s) (b_cfgdesc_cache s) (b_cfgval_cache s) (b_descriptors s) (b_descriptor_objs s) (b_seq s) (b_seq_copy s) (b_monitors s) (b_sres_keys s) (b_run_open s) (b_uncollected s) (b_declared s) (b_local s) (b_int s) (b_int_counter s) (b_composed s) (b_streams s) (b_poison s) (b_next_uid s) (b_next_cb s) (w_cfg s) (w_subs s) (w_closures s) (b_out s) (b_ledger s).
+  mkB (b_strict s) (b_record_int s) (b_bundling s) (b_bundle_name s) (b_run_uid s) (b_objs_read s) (b_read_cache s) (b_asset_cache s) x (b_dcoll_cache s) (b_cfgdesc_cache s) (b_cfgval_cache s) (b_descriptors s) (b_descriptor_objs s) (b_seq s) (b_seq_copy s) (b_monitors s) (b_mon_susp s) (b_sres_keys s) (b_run_open s) (b_uncollected s) (b_declared s) (b_local s) (b_int s) (b_int_counter s) (b_composed s) (b_streams s) (b_poison s) (b_next_uid s) (b_next_cb s) (w_cfg s) (w_subs s) (w_closures s) (b_out s) (b_ledger s).
 Definition set_b_dcoll_cache (x : dict dks) (s : bstate) : bstate :=
-  mkB (b_strict s) (b_record_int s) (b_bundling s) (b_bundle_name s) (b_run_uid s) (b_objs_read s) (b_read_cache s) (b_asset_cache s) (b_desc_cache s) x (b_cfgdesc_cache s) (b_cfgval_cache s) (b_descriptors s) (b_descriptor_objs s) (b_seq s) (b_seq_copy s) (b_monitors s) (b_sres_keys s) (b_run_open s) (b_uncollected s) (b_declared s) (b_local s) (b_int s) (b_int_counter s) (b_composed s) (b_streams s) (b_poison s) (b_next_uid s) (b_next_cb s) (w_cfg s) (w_subs s) (w_closures s) (b_out s) (b_ledger s).
+  mkB (b_strict s) (b_record_int s) (b_bundling s) (b_bundle_name s) (b_run_uid s) (b_objs_read s) (b_read_cache s) (b_asset_cache s) (b_desc_cache s) x (b_cfgdesc_cache s) (b_cfgval_cache s) (b_descriptors s) (b_descriptor_objs s) (b_seq s) (b_seq_copy s) (b_monitors s) (b_mon_susp s) (b_sres_keys s) (b_run_open s) (b_uncollected s) (b_declared s) (b_local s) (b_int s) (b_int_counter s) (b_composed s) (b_streams s) (b_poison s) (b_next_uid s) (b_next_cb s) (w_cfg s) (w_subs s) (w_closures s) (b_out s) (b_ledger s).
 Definition set_b_cfgdesc_cache (x : list obj) (s : bstate) : bstate :=
-  mkB (b_strict s) (b_record_int s) (b_bundling s) (b_bundle_name s) (b_run_uid s) (b_objs_read s) (b_read_cache s) (b_asset_cache s) (b_desc_cache s) (b_dcoll_cache s) x (b_cfgval_cache s) (b_descriptors s) (b_descriptor_objs s) (b_seq s) (b_seq_copy s) (b_monitors s) (b_sres_keys s) (b_run_open s) (b_uncollected s) (b_declared s) (b_local s) (b_int s) (b_int_counter s) (b_composed s) (b_streams s) (b_poison s) (b_next_uid s) (b_next_cb s) (w_cfg s) (w_subs s) (w_closures s) (b_out s) (b_ledger s).
+  mkB (b_strict s) (b_record_int s) (b_bundling s) (b_bundle_name s) (b_run_uid s) (b_objs_read s) (b_read_cache s) (b_asset_cache s) (b_desc_cache s) (b_dcoll_cache s) x (b_cfgval_cache s) (b_descriptors s) (b_descriptor_objs s) (b_seq s) (b_seq_copy s) (b_monitors s) (b_mon_susp s) (b_sres_keys s) (b_run_open s) (b_uncollected s) (b_declared s) (b_local s) (b_int s) (b_int_counter s) (b_composed s) (b_streams s) (b_poison s) (b_next_uid s) (b_next_cb s) (w_cfg s) (w_subs s) (w_closures s) (b_out s) (b_ledger s).
 Definition set_b_cfgval_cache (x : dict (option Z)) (s : bstate) : bstate :=
-  mkB (b_strict s) (b_record_int s) (b_bundling s) (b_bundle_name s) (b_run_uid s) (b_objs_read s) (b_read_cache s) (b_asset_cache s) (b_desc_cache s) (b_dcoll_cache s) (b_cfgdesc_cache s) x (b_descriptors s) (b_descriptor_objs s) (b_seq s) (b_seq_copy s) (b_monitors s) (b_sres_keys s) (b_run_open s) (b_uncollected s) (b_declared s) (b_local s) (b_int s) (b_int_counter s) (b_composed s) (b_streams s) (b_poison s) (b_next_uid s) (b_next_cb s) (w_cfg s) (w_subs s) (w_closures s) (b_out s) (b_ledger s).
+  mkB (b_strict s) (b_record_int s) (b_bundling s) (b_bundle_name s) (b_run_uid s) (b_objs_read s) (b_read_cache s) (b_asset_cache s) (b_desc_cache s) (b_dcoll_cache s) (b_cfgdesc_cache s) x (b_descriptors s) (b_descriptor_objs s) (b_seq s) (b_seq_copy s) (b_monitors s) (b_mon_susp s) (b_sres_keys s) (b_run_open s) (b_uncollected s) (b_declared s) (b_local s) (b_int s) (b_int_counter s) (b_composed s) (b_streams s) (b_poison s) (b_next_uid s) (b_next_cb s) (w_cfg s) (w_subs s) (w_closures s) (b_out s) (b_ledger s).
 Definition set_b_descriptors (x : dict descr) (s : bstate) : bstate :=
-  mkB (b_strict s) (b_record_int s) (b_bundling s) (b_bundle_name s) (b_run_uid s) (b_objs_read s) (b_read_cache s) (b_asset_cache s) (b_desc_cache s) (b_dcoll_cache s) (b_cfgdesc_cache s) (b_cfgval_cache s) x (b_descriptor_objs s) (b_seq s) (b_seq_copy s) (b_monitors s) (b_sres_keys s) (b_run_open s) (b_uncollected s) (b_declared s) (b_local s) (b_int s) (b_int_counter s) (b_composed s) (b_streams s) (b_poison s) (b_next_uid s) (b_next_cb s) (w_cfg s) (w_subs s) (w_closures s) (b_out s) (b_ledger s).
+  mkB (b_strict s) (b_record_int s) (b_bundling s) (b_bundle_name s) (b_run_uid s) (b_objs_read s) (b_read_cache s) (b_asset_cache s) (b_desc_cache s) (b_dcoll_cache s) (b_cfgdesc_cache s) (b_cfgval_cache s) x (b_descriptor_objs s) (b_seq s) (b_seq_copy s) (b_monitors s) (b_mon_susp s) (b_sres_keys s) (b_run_open s) (b_uncollected s) (b_declared s) (b_local s) (b_int s) (b_int_counter s) (b_composed s) (b_streams s) (b_poison s) (b_next_uid s) (b_next_cb s) (w_cfg s) (w_subs s) (w_closures s) (b_out s) (b_ledger s).
 Definition set_b_descriptor_objs (x : dict (dict dks)) (s : bstate) : bstate :=
-  mkB (b_strict s) (b_record_int s) (b_bundling s) (b_bundle_name s) (b_run_uid s) (b_objs_read s) (b_read_cache s) (b_asset_cache s) (b_desc_cache s) (b_dcoll_cache s) (b_cfgdesc_cache s) (b_cfgval_cache s) (b_descriptors s) x (b_seq s) (b_seq_copy s) (b_monitors s) (b_sres_keys s) (b_run_open s) (b_uncollected s) (b_declared s) (b_local s) (b_int s) (b_int_counter s) (b_composed s) (b_streams s) (b_poison s) (b_next_uid s) (b_next_cb s) (w_cfg s) (w_subs s) (w_closures s) (b_out s) (b_ledger s).
+  mkB (b_strict s) (b_record_int s) (b_bundling s) (b_bundle_name s) (b_run_uid s) (b_objs_read s) (b_read_cache s) (b_asset_cache s) (b_desc_cache s) (b_dcoll_cache s) (b_cfgdesc_cache s) (b_cfgval_cache s) (b_descriptors s) x (b_seq s) (b_seq_copy s) (b_monitors s) (b_mon_susp s) (b_sres_keys s) (b_run_open s) (b_uncollected s) (b_declared s) (b_local s) (b_int s) (b_int_counter s) (b_composed s) (b_streams s) (b_poison s) (b_next_uid s) (b_next_cb s) (w_cfg s) (w_subs s) (w_closures s) (b_out s) (b_ledger s).
 Definition set_b_seq (x : dict Z) (s : bstate) : bstate :=
-  mkB (b_strict s) (b_record_int s) (b_bundling s) (b_bundle_name s) (b_run_uid s) (b_objs_read s) (b_read_cache s) (b_asset_cache s) (b_desc_cache s) (b_dcoll_cache s) (b_cfgdesc_cache s) (b_cfgval_cache s) (b_descriptors s) (b_descriptor_objs s) x (b_seq_copy s) (b_monitors s) (b_sres_keys s) (b_run_open s) (b_uncollected s) (b_declared s) (b_local s) (b_int s) (b_int_counter s) (b_composed s) (b_streams s) (b_poison s) (b_next_uid s) (b_next_cb s) (w_cfg s) (w_subs s) (w_closures s) (b_out s) (b_ledger s).
+  mkB (b_strict s) (b_record_int s) (b_bundling s) (b_bundle_name s) (b_run_uid s) (b_objs_read s) (b_read_cache s) (b_asset_cache s) (b_desc_cache s) (b_dcoll_cache s) (b_cfgdesc_cache s) (b_cfgval_cache s) (b_descriptors s) (b_descriptor_objs s) x (b_seq_copy s) (b_monitors s) (b_mon_susp s) (b_sres_keys s) (b_run_open s) (b_uncollected s) (b_declared s) (b_local s) (b_int s) (b_int_counter s) (b_composed s) (b_streams s) (b_poison s) (b_next_uid s) (b_next_cb s) (w_cfg s) (w_subs s) (w_closures s) (b_out s) (b_ledger s).
 Definition set_b_seq_copy (x : dict Z) (s : bstate) : bstate :=
-  mkB (b_strict s) (b_record_int s) (b_bundling s) (b_bundle_name s) (b_run_uid s) (b_objs_read s) (b_read_cache s) (b_asset_cache s) (b_desc_cache s) (b_dcoll_cache s) (b_cfgdesc_cache s) (b_cfgval_cache s) (b_descriptors s) (b_descriptor_objs s) (b_seq s) x (b_monitors s) (b_sres_keys s) (b_run_open s) (b_uncollected s) (b_declared s) (b_local s) (b_int s) (b_int_counter s) (b_composed s) (b_streams s) (b_poison s) (b_next_uid s) (b_next_cb s) (w_cfg s) (w_subs s) (w_closures s) (b_out s) (b_ledger s).
+  mkB (b_strict s) (b_record_int s) (b_bundling s) (b_bundle_name s) (b_run_uid s) (b_objs_read s) (b_read_cache s) (b_asset_cache s) (b_desc_cache s) (b_dcoll_cache s) (b_cfgdesc_cache s) (b_cfgval_cache s) (b_descriptors s) (b_descriptor_objs s) (b_seq s) x (b_monitors s) (b_mon_susp s) (b_sres_keys s) (b_run_open s) (b_uncollected s) (b_declared s) (b_local s) (b_int s) (b_int_counter s) (b_composed s) (b_streams s) (b_poison s) (b_next_uid s) (b_next_cb s) (w_cfg s) (w_subs s) (w_closures s) (b_out s) (b_ledger s).
 Definition set_b_monitors (x : dict nat) (s : bstate) : bstate :=
-  mkB (b_strict s) (b_record_int s) (b_bundling s) (b_bundle_name s) (b_run_uid s) (b_objs_read s) (b_read_cache s) (b_asset_cache s) (b_desc_cache s) (b_dcoll_cache s) (b_cfgdesc_cache s) (b_cfgval_cache s) (b_descriptors s) (b_descriptor_objs s) (b_seq s) (b_seq_copy s) x (b_sres_keys s) (b_run_open s) (b_uncollected s) (b_declared s) (b_local s) (b_int s) (b_int_counter s) (b_composed s) (b_streams s) (b_poison s) (b_next_uid s) (b_next_cb s) (w_cfg s) (w_subs s) (w_closures s) (b_out s) (b_ledger s).
+  mkB (b_strict s) (b_record_int s) (b_bundling s) (b_bundle_name s) (b_run_uid s) (b_objs_read s) (b_read_cache s) (b_asset_cache s) (b_desc_cache s) (b_dcoll_cache s) (b_cfgdesc_cache s) (b_cfgval_cache s) (b_descriptors s) (b_descriptor_objs s) (b_seq s) (b_seq_copy s) x (b_mon_susp s) (b_sres_keys s) (b_run_open s) (b_uncollected s) (b_declared s) (b_local s) (b_int s) (b_int_counter s) (b_composed s) (b_streams s) (b_poison s) (b_next_uid s) (b_next_cb s) (w_cfg s) (w_subs s) (w_closures s) (b_out s) (b_ledger s).
+Definition set_b_mon_susp (x : nat) (s : bstate) : bstate :=
+  mkB (b_strict s) (b_record_int s) (b_bundling s) (b_bundle_name s) (b_run_uid s) (b_objs_read s) (b_read_cache s) (b_asset_cache s) (b_desc_cache s) (b_dcoll_cache s) (b_cfgdesc_cache s) (b_cfgval_cache s) (b_descriptors s) (b_descriptor_objs s) (b_seq s) (b_seq_copy s) (b_monitors s) x (b_sres_keys s) (b_run_open s) (b_uncollected s) (b_declared s) (b_local s) (b_int s) (b_int_counter s) (b_composed s) (b_streams s) (b_poison s) (b_next_uid s) (b_next_cb s) (w_cfg s) (w_subs s) (w_closures s) (b_out s) (b_ledger s).
 Definition set_b_sres_keys (x : list (uid * key)) (s : bstate) : bstate :=
-  mkB (b_strict s) (b_record_int s) (b_bundling s) (b_bundle_name s) (b_run_uid s) (b_objs_read s) (b_read_cache s) (b_asset_cache s) (b_desc_cache s) (b_dcoll_cache s) (b_cfgdesc_cache s) (b_cfgval_cache s) (b_descriptors s) (b_descriptor_objs s) (b_seq s) (b_seq_copy s) (b_monitors s) x (b_run_open s) (b_uncollected s) (b_declared s) (b_local s) (b_int s) (b_int_counter s) (b_composed s) (b_streams s) (b_poison s) (b_next_uid s) (b_next_cb s) (w_cfg s) (w_subs s) (w_closures s) (b_out s) (b_ledger s).
+  mkB (b_strict s) (b_record_int s) (b_bundling s) (b_bundle_name s) (b_run_uid s) (b_objs_read s) (b_read_cache s) (b_asset_cache s) (b_desc_cache s) (b_dcoll_cache s) (b_cfgdesc_cache s) (b_cfgval_cache s) (b_descriptors s) (b_descriptor_objs s) (b_seq s) (b_seq_copy s) (b_monitors s) (b_mon_susp s) x (b_run_open s) (b_uncollected s) (b_declared s) (b_local s) (b_int s) (b_int_counter s) (b_composed s) (b_streams s) (b_poison s) (b_next_uid s) (b_next_cb s) (w_cfg s) (w_subs s) (w_closures s) (b_out s) (b_ledger s).
 Definition set_b_run_open (x : bool) (s : bstate) : bstate :=
-  mkB (b_strict s) (b_record_int s) (b_bundling s) (b_bundle_name s) (b_run_uid s) (b_objs_read s) (b_read_cache s) (b_asset_cache s) (b_desc_cache s) (b_dcoll_cache s) (b_cfgdesc_cache s) (b_cfgval_cache s) (b_descriptors s) (b_descriptor_objs s) (b_seq s) (b_seq_copy s) (b_monitors s) (b_sres_keys s) x (b_uncollected s) (b_declared s) (b_local s) (b_int s) (b_int_counter s) (b_composed s) (b_streams s) (b_poison s) (b_next_uid s) (b_next_cb s) (w_cfg s) (w_subs s) (w_closures s) (b_out s) (b_ledger s).
+  mkB (b_strict s) (b_record_int s) (b_bundling s) (b_bundle_name s) (b_run_uid s) (b_objs_read s) (b_read_cache s) (b_asset_cache s) (b_desc_cache s) (b_dcoll_cache s) (b_cfgdesc_cache s) (b_cfgval_cache s) (b_descriptors s) (b_descriptor_objs s) (b_seq s) (b_seq_copy s) (b_monitors s) (b_mon_susp s) (b_sres_keys s) x (b_uncollected s) (b_declared s) (b_local s) (b_int s) (b_int_counter s) (b_composed s) (b_streams s) (b_poison s) (b_next_uid s) (b_next_cb s) (w_cfg s) (w_subs s) (w_closures s) (b_out s) (b_ledger s).
 Definition set_b_uncollected (x : list obj) (s : bstate) : bstate :=
-  mkB (b_strict s) (b_record_int s) (b_bundling s) (b_bundle_name s) (b_run_uid s) (b_objs_read s) (b_read_cache s) (b_asset_cache s) (b_desc_cache s) (b_dcoll_cache s) (b_cfgdesc_cache s) (b_cfgval_cache s) (b_descriptors s) (b_descriptor_objs s) (b_seq s) (b_seq_copy s) (b_monitors s) (b_sres_keys s) (b_run_open s) x (b_declared s) (b_local s) (b_int s) (b_int_counter s) (b_composed s) (b_streams s) (b_poison s) (b_next_uid s) (b_next_cb s) (w_cfg s) (w_subs s) (w_closures s) (b_out s) (b_ledger s).
+  mkB (b_strict s) (b_record_int s) (b_bundling s) (b_bundle_name s) (b_run_uid s) (b_objs_read s) (b_read_cache s) (b_asset_cache s) (b_desc_cache s) (b_dcoll_cache s) (b_cfgdesc_cache s) (b_cfgval_cache s) (b_descriptors s) (b_descriptor_objs s) (b_seq s) (b_seq_copy s) (b_monitors s) (b_mon_susp s) (b_sres_keys s) (b_run_open s) x (b_declared s) (b_local s) (b_int s) (b_int_counter s) (b_composed s) (b_streams s) (b_poison s) (b_next_uid s) (b_next_cb s) (w_cfg s) (w_subs s) (w_closures s) (b_out s) (b_ledger s).
 Definition set_b_declared (x : list (list obj * list name)) (s : bstate) : bstate :=
-  mkB (b_strict s) (b_record_int s) (b_bundling s) (b_bundle_name s) (b_run_uid s) (b_objs_read s) (b_read_cache s) (b_asset_cache s) (b_desc_cache s) (b_dcoll_cache s) (b_cfgdesc_cache s) (b_cfgval_cache s) (b_descriptors s) (b_descriptor_objs s) (b_seq s) (b_seq_copy s) (b_monitors s) (b_sres_keys s) (b_run_open s) (b_uncollected s) x (b_local s) (b_int s) (b_int_counter s) (b_composed s) (b_streams s) (b_poison s) (b_next_uid s) (b_next_cb s) (w_cfg s) (w_subs s) (w_closures s) (b_out s) (b_ledger s).
+  mkB (b_strict s) (b_record_int s) (b_bundling s) (b_bundle_name s) (b_run_uid s) (b_objs_read s) (b_read_cache s) (b_asset_cache s) (b_desc_cache s) (b_dcoll_cache s) (b_cfgdesc_cache s) (b_cfgval_cache s) (b_descriptors s) (b_descriptor_objs s) (b_seq s) (b_seq_copy s) (b_monitors s) (b_mon_susp s) (b_sres_keys s) (b_run_open s) (b_uncollected s) x (b_local s) (b_int s) (b_int_counter s) (b_composed s) (b_streams s) (b_poison s) (b_next_uid s) (b_next_cb s) (w_cfg s) (w_subs s) (w_closures s) (b_out s) (b_ledger s).
 Definition set_b_local (x : list obj) (s : bstate) : bstate :=
-  mkB (b_strict s) (b_record_int s) (b_bundling s) (b_bundle_name s) (b_run_uid s) (b_objs_read s) (b_read_cache s) (b_asset_cache s) (b_desc_cache s) (b_dcoll_cache s) (b_cfgdesc_cache s) (b_cfgval_cache s) (b_descriptors s) (b_descriptor_objs s) (b_seq s) (b_seq_copy s) (b_monitors s) (b_sres_keys s) (b_run_open s) (b_uncollected s) (b_declared s) x (b_int s) (b_int_counter s) (b_composed s) (b_streams s) (b_poison s) (b_next_uid s) (b_next_cb s) (w_cfg s) (w_subs s) (w_closures s) (b_out s) (b_ledger s).
+  mkB (b_strict s) (b_record_int s) (b_bundling s) (b_bundle_name s) (b_run_uid s) (b_objs_read s) (b_read_cache s) (b_asset_cache s) (b_desc_cache s) (b_dcoll_cache s) (b_cfgdesc_cache s) (b_cfgval_cache s) (b_descriptors s) (b_descriptor_objs s) (b_seq s) (b_seq_copy s) (b_monitors s) (b_mon_susp s) (b_sres_keys s) (b_run_open s) (b_uncollected s) (b_declared s) x (b_int s) (b_int_counter s) (b_composed s) (b_streams s) (b_poison s) (b_next_uid s) (b_next_cb s) (w_cfg s) (w_subs s) (w_closures s) (b_out s) (b_ledger s).
 Definition set_b_int (x : option (option descr)) (s : bstate) : bstate :=
-  mkB (b_strict s) (b_record_int s) (b_bundling s) (b_bundle_name s) (b_run_uid s) (b_objs_read s) (b_read_cache s) (b_asset_cache s) (b_desc_cache s) (b_dcoll_cache s) (b_cfgdesc_cache s) (b_cfgval_cache s) (b_descriptors s) (b_descriptor_objs s) (b_seq s) (b_seq_copy s) (b_monitors s) (b_sres_keys s) (b_run_open s) (b_uncollected s) (b_declared s) (b_local s) x (b_int_counter s) (b_composed s) (b_streams s) (b_poison s) (b_next_uid s) (b_next_cb s) (w_cfg s) (w_subs s) (w_closures s) (b_out s) (b_ledger s).
+  mkB (b_strict s) (b_record_int s) (b_bundling s) (b_bundle_name s) (b_run_uid s) (b_objs_read s) (b_read_cache s) (b_asset_cache s) (b_desc_cache s) (b_dcoll_cache s) (b_cfgdesc_cache s) (b_cfgval_cache s) (b_descriptors s) (b_descriptor_objs s) (b_seq s) (b_seq_copy s) (b_monitors s) (b_mon_susp s) (b_sres_keys s) (b_run_open s) (b_uncollected s) (b_declared s) (b_local s) x (b_int_counter s) (b_composed s) (b_streams s) (b_poison s) (b_next_uid s) (b_next_cb s) (w_cfg s) (w_subs s) (w_closures s) (b_out s) (b_ledger s).
 Definition set_b_int_counter (x : nat) (s : bstate) : bstate :=
-  mkB (b_strict s) (b_record_int s) (b_bundling s) (b_bundle_name s) (b_run_uid s) (b_objs_read s) (b_read_cache s) (b_asset_cache s) (b_desc_cache s) (b_dcoll_cache s) (b_cfgdesc_cache s) (b_cfgval_cache s) (b_descriptors s) (b_descriptor_objs s) (b_seq s) (b_seq_copy s) (b_monitors s) (b_sres_keys s) (b_run_open s) (b_uncollected s) (b_declared s) (b_local s) (b_int s) x (b_composed s) (b_streams s) (b_poison s) (b_next_uid s) (b_next_cb s) (w_cfg s) (w_subs s) (w_closures s) (b_out s) (b_ledger s).
+  mkB (b_strict s) (b_record_int s) (b_bundling s) (b_bundle_name s) (b_run_uid s) (b_objs_read s) (b_read_cache s) (b_asset_cache s) (b_desc_cache s) (b_dcoll_cache s) (b_cfgdesc_cache s) (b_cfgval_cache s) (b_descriptors s) (b_descriptor_objs s) (b_seq s) (b_seq_copy s) (b_monitors s) (b_mon_susp s) (b_sres_keys s) (b_run_open s) (b_uncollected s) (b_declared s) (b_local s) (b_int s) x (b_composed s) (b_streams s) (b_poison s) (b_next_uid s) (b_next_cb s) (w_cfg s) (w_subs s) (w_closures s) (b_out s) (b_ledger s).
 Definition set_b_composed (x : bool) (s : bstate) : bstate :=
-  mkB (b_strict s) (b_record_int s) (b_bundling s) (b_bundle_name s) (b_run_uid s) (b_objs_read s) (b_read_cache s) (b_asset_cache s) (b_desc_cache s) (b_dcoll_cache s) (b_cfgdesc_cache s) (b_cfgval_cache s) (b_descriptors s) (b_descriptor_objs s) (b_seq s) (b_seq_copy s) (b_monitors s) (b_sres_keys s) (b_run_open s) (b_uncollected s) (b_declared s) (b_local s) (b_int s) (b_int_counter s) x (b_streams s) (b_poison s) (b_next_uid s) (b_next_cb s) (w_cfg s) (w_subs s) (w_closures s) (b_out s) (b_ledger s).
+  mkB (b_strict s) (b_record_int s) (b_bundling s) (b_bundle_name s) (b_run_uid s) (b_objs_read s) (b_read_cache s) (b_asset_cache s) (b_desc_cache s) (b_dcoll_cache s) (b_cfgdesc_cache s) (b_cfgval_cache s) (b_descriptors s) (b_descriptor_objs s) (b_seq s) (b_seq_copy s) (b_monitors s) (b_mon_susp s) (b_sres_keys s) (b_run_open s) (b_uncollected s) (b_declared s) (b_local s) (b_int s) (b_int_counter s) x (b_streams s) (b_poison s) (b_next_uid s) (b_next_cb s) (w_cfg s) (w_subs s) (w_closures s) (b_out s) (b_ledger s).
 Definition set_b_streams (x : dict (list key)) (s : bstate) : bstate :=
-  mkB (b_strict s) (b_record_int s) (b_bundling s) (b_bundle_name s) (b_run_uid s) (b_objs_read s) (b_read_cache s) (b_asset_cache s) (b_desc_cache s) (b_dcoll_cache s) (b_cfgdesc_cache s) (b_cfgval_cache s) (b_descriptors s) (b_descriptor_objs s) (b_seq s) (b_seq_copy s) (b_monitors s) (b_sres_keys s) (b_run_open s) (b_uncollected s) (b_declared s) (b_local s) (b_int s) (b_int_counter s) (b_composed s) x (b_poison s) (b_next_uid s) (b_next_cb s) (w_cfg s) (w_subs s) (w_closures s) (b_out s) (b_ledger s).
+  mkB (b_strict s) (b_record_int s) (b_bundling s) (b_bundle_name s) (b_run_uid s) (b_objs_read s) (b_read_cache s) (b_asset_cache s) (b_desc_cache s) (b_dcoll_cache s) (b_cfgdesc_cache s) (b_cfgval_cache s) (b_descriptors s) (b_descriptor_objs s) (b_seq s) (b_seq_copy s) (b_monitors s) (b_mon_susp s) (b_sres_keys s) (b_run_open s) (b_uncollected s) (b_declared s) (b_local s) (b_int s) (b_int_counter s) (b_composed s) x (b_poison s) (b_next_uid s) (b_next_cb s) (w_cfg s) (w_subs s) (w_closures s) (b_out s) (b_ledger s).
 Definition set_b_poison (x : bool) (s : bstate) : bstate :=
-  mkB (b_strict s) (b_record_int s) (b_bundling s) (b_bundle_name s) (b_run_uid s) (b_objs_read s) (b_read_cache s) (b_asset_cache s) (b_desc_cache s) (b_dcoll_cache s) (b_cfgdesc_cache s) (b_cfgval_cache s) (b_descriptors s) (b_descriptor_objs s) (b_seq s) (b_seq_copy s) (b_monitors s) (b_sres_keys s) (b_run_open s) (b_uncollected s) (b_declared s) (b_local s) (b_int s) (b_int_counter s) (b_composed s) (b_streams s) x (b_next_uid s) (b_next_cb s) (w_cfg s) (w_subs s) (w_closures s) (b_out s) (b_ledger s).
+  mkB (b_strict s) (b_record_int s) (b_bundling s) (b_bundle_name s) (b_run_uid s) (b_objs_read s) (b_read_cache s) (b_asset_cache s) (b_desc_cache s) (b_dcoll_cache s) (b_cfgdesc_cache s) (b_cfgval_cache s) (b_descriptors s) (b_descriptor_objs s) (b_seq s) (b_seq_copy s) (b_monitors s) (b_mon_susp s) (b_sres_keys s) (b_run_open s) (b_uncollected s) (b_declared s) (b_local s) (b_int s) (b_int_counter s) (b_composed s) (b_streams s) x (b_next_uid s) (b_next_cb s) (w_cfg s) (w_subs s) (w_closures s) (b_out s) (b_ledger s).
 Definition set_b_next_uid (x : nat) (s : bstate) : bstate :=
-  mkB (b_strict s) (b_record_int s) (b_bundling s) (b_bundle_name s) (b_run_uid s) (b_objs_read s) (b_read_cache s) (b_asset_cache s) (b_desc_cache s) (b_dcoll_cache s) (b_cfgdesc_cache s) (b_cfgval_cache s) (b_descriptors s) (b_descriptor_objs s) (b_seq s) (b_seq_copy s) (b_monitors s) (b_sres_keys s) (b_run_open s) (b_uncollected s) (b_declared s) (b_local s) (b_int s) (b_int_counter s) (b_composed s) (b_streams s) (b_poison s) x (b_next_cb s) (w_cfg s) (w_subs s) (w_closures s) (b_out s) (b_ledger s).
+  mkB (b_strict s) (b_record_int s) (b_bundling s) (b_bundle_name s) (b_run_uid s) (b_objs_read s) (b_read_cache s) (b_asset_cache s) (b_desc_cache s) (b_dcoll_cache s) (b_cfgdesc_cache s) (b_cfgval_cache s) (b_descriptors s) (b_descriptor_objs s) (b_seq s) (b_seq_copy s) (b_monitors s) (b_mon_susp s) (b_sres_keys s) (b_run_open s) (b_uncollected s) (b_declared s) (b_local s) (b_int s) (b_int_counter s) (b_composed s) (b_streams s) (b_poison s) x (b_next_cb s) (w_cfg s) (w_subs s) (w_closures s) (b_out s) (b_ledger s).
 Definition set_b_next_cb (x : nat) (s : bstate) : bstate :=
-  mkB (b_strict s) (b_record_int s) (b_bundling s) (b_bundle_name s) (b_run_uid s) (b_objs_read s) (b_read_cache s) (b_asset_cache s) (b_desc_cache s) (b_dcoll_cache s) (b_cfgdesc_cache s) (b_cfgval_cache s) (b_descriptors s) (b_descriptor_objs s) (b_seq s) (b_seq_copy s) (b_monitors s) (b_sres_keys s) (b_run_open s) (b_uncollected s) (b_declared s) (b_local s) (b_int s) (b_int_counter s) (b_composed s) (b_streams s) (b_poison s) (b_next_uid s) x (w_cfg s) (w_subs s) (w_closures s) (b_out s) (b_ledger s).
+  mkB (b_strict s) (b_record_int s) (b_bundling s) (b_bundle_name s) (b_run_uid s) (b_objs_read s) (b_read_cache s) (b_asset_cache s) (b_desc_cache s) (b_dcoll_cache s) (b_cfgdesc_cache s) (b_cfgval_cache s) (b_descriptors s) (b_descriptor_objs s) (b_seq s) (b_seq_copy s) (b_monitors s) (b_mon_susp s) (b_sres_keys s) (b_run_open s) (b_uncollected s) (b_declared s) (b_local s) (b_int s) (b_int_counter s) (b_composed s) (b_streams s) (b_poison s) (b_next_uid s) x (w_cfg s) (w_subs s) (w_closures s) (b_out s) (b_ledger s).
 Definition set_w_cfg (x : dict Z) (s : bstate) : bstate :=
-  mkB (b_strict s) (b_record_int s) (b_bundling s) (b_bundle_name s) (b_run_uid s) (b_objs_read s) (b_read_cache s) (b_asset_cache s) (b_desc_cache s) (b_dcoll_cache s) (b_cfgdesc_cache s) (b_cfgval_cache s) (b_descriptors s) (b_descriptor_objs s) (b_seq s) (b_seq_copy s) (b_monitors s) (b_sres_keys s) (b_run_open s) (b_uncollected s) (b_declared s) (b_local s) (b_int s) (b_int_counter s) (b_composed s) (b_streams s) (b_poison s) (b_next_uid s) (b_next_cb s) x (w_subs s) (w_closures s) (b_out s) (b_ledger s).
+  mkB (b_strict s) (b_record_int s) (b_bundling s) (b_bundle_name s) (b_run_uid s) (b_objs_read s) (b_read_cache s) (b_asset_cache s) (b_desc_cache s) (b_dcoll_cache s) (b_cfgdesc_cache s) (b_cfgval_cache s) (b_descriptors s) (b_descriptor_objs s) (b_seq s) (b_seq_copy s) (b_monitors s) (b_mon_susp s) (b_sres_keys s) (b_run_open s) (b_uncollected s) (b_declared s) (b_local s) (b_int s) (b_int_counter s) (b_composed s) (b_streams s) (b_poison s) (b_next_uid s) (b_next_cb s) x (w_subs s) (w_closures s) (b_out s) (b_ledger s).
 Definition set_w_subs (x : list (obj * nat)) (s : bstate) : bstate :=
-  mkB (b_strict s) (b_record_int s) (b_bundling s) (b_bundle_name s) (b_run_uid s) (b_objs_read s) (b_read_cache s) (b_asset_cache s) (b_desc_cache s) (b_dcoll_cache s) (b_cfgdesc_cache s) (b_cfgval_cache s) (b_descriptors s) (b_descriptor_objs s) (b_seq s) (b_seq_copy s) (b_monitors s) (b_sres_keys s) (b_run_open s) (b_uncollected s) (b_declared s) (b_local s) (b_int s) (b_int_counter s) (b_composed s) (b_streams s) (b_poison s) (b_next_uid s) (b_next_cb s) (w_cfg s) x (w_closures s) (b_out s) (b_ledger s).
+  mkB (b_strict s) (b_record_int s) (b_bundling s) (b_bundle_name s) (b_run_uid s) (b_objs_read s) (b_read_cache s) (b_asset_cache s) (b_desc_cache s) (b_dcoll_cache s) (b_cfgdesc_cache s) (b_cfgval_cache s) (b_descriptors s) (b_descriptor_objs s) (b_seq s) (b_seq_copy s) (b_monitors s) (b_mon_susp s) (b_sres_keys s) (b_run_open s) (b_uncollected s) (b_declared s) (b_local s) (b_int s) (b_int_counter s) (b_composed s) (b_streams s) (b_poison s) (b_next_uid s) (b_next_cb s) (w_cfg s) x (w_closures s) (b_out s) (b_ledger s).
 Definition set_w_closures (x : dict (obj * descr)) (s : bstate) : bstate :=
-  mkB (b_strict s) (b_record_int s) (b_bundling s) (b_bundle_name s) (b_run_uid s) (b_objs_read s) (b_read_cache s) (b_asset_cache s) (b_desc_cache s) (b_dcoll_cache s) (b_cfgdesc_cache s) (b_cfgval_cache s) (b_descriptors s) (b_descriptor_objs s) (b_seq s) (b_seq_copy s) (b_monitors s) (b_sres_keys s) (b_run_open s) (b_uncollected s) (b_declared s) (b_local s) (b_int s) (b_int_counter s) (b_composed s) (b_streams s) (b_poison s) (b_next_uid s) (b_next_cb s) (w_cfg s) (w_subs s) x (b_out s) (b_ledger s).
+  mkB (b_strict s) (b_record_int s) (b_bundling s) (b_bundle_name s) (b_run_uid s) (b_objs_read s) (b_read_cache s) (b_asset_cache s) (b_desc_cache s) (b_dcoll_cache s) (b_cfgdesc_cache s) (b_cfgval_cache s) (b_descriptors s) (b_descriptor_objs s) (b_seq s) (b_seq_copy s) (b_monitors s) (b_mon_susp s) (b_sres_keys s) (b_run_open s) (b_uncollected s) (b_declared s) (b_local s) (b_int s) (b_int_counter s) (b_composed s) (b_streams s) (b_poison s) (b_next_uid s) (b_next_cb s) (w_cfg s) (w_subs s) x (b_out s) (b_ledger s).
 Definition set_b_out (x : list doc) (s : bstate) : bstate :=
-  mkB (b_strict s) (b_record_int s) (b_bundling s) (b_bundle_name s) (b_run_uid s) (b_objs_read s) (b_read_cache s) (b_asset_cache s) (b_desc_cache s) (b_dcoll_cache s) (b_cfgdesc_cache s) (b_cfgval_cache s) (b_descriptors s) (b_descriptor_objs s) (b_seq s) (b_seq_copy s) (b_monitors s) (b_sres_keys s) (b_run_open s) (b_uncollected s) (b_declared s) (b_local s) (b_int s) (b_int_counter s) (b_composed s) (b_streams s) (b_poison s) (b_next_uid s) (b_next_cb s) (w_cfg s) (w_subs s) (w_closures s) x (b_ledger s).
+  mkB (b_strict s) (b_record_int s) (b_bundling s) (b_bundle_name s) (b_run_uid s) (b_objs_read s) (b_read_cache s) (b_asset_cache s) (b_desc_cache s) (b_dcoll_cache s) (b_cfgdesc_cache s) (b_cfgval_cache s) (b_descriptors s) (b_descriptor_objs s) (b_seq s) (b_seq_copy s) (b_monitors s) (b_mon_susp s) (b_sres_keys s) (b_run_open s) (b_uncollected s) (b_declared s) (b_local s) (b_int s) (b_int_counter s) (b_composed s) (b_streams s) (b_poison s) (b_next_uid s) (b_next_cb s) (w_cfg s) (w_subs s) (w_closures s) x (b_ledger s).
 Definition set_b_ledger (x : list devcall) (s : bstate) : bstate :=
-  mkB (b_strict s) (b_record_int s) (b_bundling s) (b_bundle_name s) (b_run_uid s) (b_objs_read s) (b_read_cache s) (b_asset_cache s) (b_desc_cache s) (b_dcoll_cache s) (b_cfgdesc_cache s) (b_cfgval_cache s) (b_descriptors s) (b_descriptor_objs s) (b_seq s) (b_seq_copy s) (b_monitors s) (b_sres_keys s) (b_run_open s) (b_uncollected s) (b_declared s) (b_local s) (b_int s) (b_int_counter s) (b_composed s) (b_streams s) (b_poison s) (b_next_uid s) (b_next_cb s) (w_cfg s) (w_subs s) (w_closures s) (b_out s) x.
+  mkB (b_strict s) (b_record_int s) (b_bundling s) (b_bundle_name s) (b_run_uid s) (b_objs_read s) (b_read_cache s) (b_asset_cache s) (b_desc_cache s) (b_dcoll_cache s) (b_cfgdesc_cache s) (b_cfgval_cache s) (b_descriptors s) (b_descriptor_objs s) (b_seq s) (b_seq_copy s) (b_monitors s) (b_mon_susp s) (b_sres_keys s) (b_run_open s) (b_uncollected s) (b_declared s) (b_local s) (b_int s) (b_int_counter s) (b_composed s) (b_streams s) (b_poison s) (b_next_uid s) (b_next_cb s) (w_cfg s) (w_subs s) (w_closures s) (b_out s) x.
 
 (* ------------------------------------------------------------------ state + error monad.
    Every program below is built from: ret fail bind get modify (+ guard of_opt iterM swallow gather2). *)
@@ -645,7 +648,8 @@ Definition monitor (E : env) (o : obj) (nm : name) (has_args : bool) : M unit :=
   s0 <- get ;;
   modify (fun s => set_b_next_cb (S (b_next_cb s0)) (set_w_closures (dset (w_closures s) (b_next_cb s0) (o, d)) s)) ;;;
   modify (fun s => set_b_monitors (dset (b_monitors s) o (b_next_cb s0)) s) ;;;
-  subscribe o (b_next_cb s0).
+  (* while a pause / suspension silences the monitors the subscription waits for restore_monitors *)
+  if Nat.eqb (b_mon_susp s0) 0 then subscribe o (b_next_cb s0) else ret tt.
 
 Definition unmonitor (E : env) (o : obj) : M unit :=
   guard (dv_subscribable (E o)) EAssertionError ;;;
@@ -669,10 +673,19 @@ Definition mon_event (o : obj) (r : reading) : M unit :=
   s <- get ;;
   iterM (fun oc : obj * nat => if Nat.eqb (fst oc) o then run_closure (snd oc) r else ret tt) (w_subs s).
 
+(* pauses and suspensions may overlap (_monitor_suspensions counts them): only the first one unsubscribes, only
+   the end of the last one subscribes again, and never without a matching suspend *)
 Definition suspend_monitors : M unit :=
-  s <- get ;; iterM (fun oc : obj * nat => clear_sub (fst oc) (snd oc)) (b_monitors s).
+  s <- get ;;
+  (if Nat.eqb (b_mon_susp s) 0
+   then iterM (fun oc : obj * nat => clear_sub (fst oc) (snd oc)) (b_monitors s) else ret tt) ;;;
+  modify (fun s => set_b_mon_susp (S (b_mon_susp s)) s).
 Definition restore_monitors : M unit :=
-  s <- get ;; iterM (fun oc : obj * nat => subscribe (fst oc) (snd oc)) (b_monitors s).
+  s <- get ;;
+  if Nat.eqb (b_mon_susp s) 0 then ret tt
+  else modify (fun s => set_b_mon_susp (pred (b_mon_susp s)) s) ;;;
+       (if Nat.eqb (pred (b_mon_susp s)) 0
+        then iterM (fun oc : obj * nat => subscribe (fst oc) (snd oc)) (b_monitors s) else ret tt).
 Definition clear_monitors : M unit :=
   s <- get ;;
   iterM (fun oc : obj * nat => clear_sub (fst oc) (snd oc) ;;;
@@ -849,7 +862,7 @@ Definition step (E : env) (s : bstate) (o : op) : bstate * list doc * result :=
   (fst sr, b_out (fst sr), to_result (snd sr)).
 
 Definition init (strict record_int : bool) : bstate :=
-  mkB strict record_int false None None [] [] [] [] [] [] [] [] [] [] [] [] [] false [] [] [] None 0
+  mkB strict record_int false None None [] [] [] [] [] [] [] [] [] [] [] [] 0 [] false [] [] [] None 0
       false [] false 0 0 [] [] [] [] [].
 
 (* the whole history: per op (documents, device calls, result) *)
